@@ -398,8 +398,8 @@ class DefaultPredictionStrategy(object):
             covar_correction_rhs = train_train_covar.solve(train_test_covar)
             # For efficiency
             if torch.is_tensor(test_test_covar):
-                # We can use addmm in the 2d case
-                if test_test_covar.dim() == 2:
+                # We can use addmm in the 2d case (the solve carries the batch shape of a batched mean or noise)
+                if test_test_covar.dim() == 2 and test_train_covar.dim() == 2 and covar_correction_rhs.dim() == 2:
                     return to_linear_operator(
                         torch.addmm(test_test_covar, test_train_covar, covar_correction_rhs, beta=1, alpha=-1)
                     )
